@@ -59,6 +59,16 @@ structure WInvX (x : Option Nat) (w : World) : Prop where
   connReqFresh : ∀ cr c d, w.connReqs.get? cr = some c → c.dfd = some d → d < w.nextDfd
   connackOwned : ∀ t cr, Pending w t (.connack cr) →
       ∃ c d, w.connReqs.get? cr = some c ∧ c.dfd = some d ∧ d ∉ w.fired ∧ c.alarm = t
+  /-- C13/C18: a pending retry timer belongs to a protocol whose loss has not been reported -/
+  retryLive : ∀ t p rid, Pending w t (.retry p rid) → ∃ pr, w.protos.get? p = some pr ∧ pr.lost = false
+  /-- the Deferred of the handshake a connecting protocol is waiting for has not fired -/
+  connectingFresh : ∀ p pr cr c d, w.protos.get? p = some pr → pr.state = .connecting → pr.connReq = some cr →
+      w.connReqs.get? cr = some c → c.dfd = some d → d ∉ w.fired
+  /-- SUBSCRIBE/UNSUBSCRIBE requests exist only with a running retry timer (they never survive a connection) -/
+  subArmed : ∀ e ∈ w.ents, (e.box = .sub ∨ e.box = .unsub) → (w.req e.rid).alarm = none →
+      ∃ p pr, x = some p ∧ w.protos.get? p = some pr ∧ pr.addr = e.addr
+  /-- receive buffers hold bytes -/
+  bufOk : ∀ p pr, w.protos.get? p = some pr → Bytes.WF pr.buffer
 
 /-- the invariant that holds between operations -/
 abbrev WInv (w : World) : Prop := WInvX none w
@@ -91,18 +101,27 @@ theorem WInv.init (profile : Nat) : WInv (World.init profile) := by
   constructor <;> simp [World.init, Pending, Dict.get?]
 
 theorem WInvX.weaken {x : Option Nat} {w : World} (h : WInv w) : WInvX x w :=
-  { h with connected := fun p pr hp _ => h.connected p pr hp (by simp) }
+  { h with connected := fun p pr hp _ => h.connected p pr hp (by simp),
+           subArmed := fun e he hb ha => by obtain ⟨p, pr, hx, _⟩ := h.subArmed e he hb ha; cases hx }
 
 /-- the suspended clause can be reinstated once it holds again for the protocol concerned -/
 theorem WInvX.close {p : Nat} {w : World} (h : WInvX (some p) w)
     (hp : ∀ pr, w.protos.get? p = some pr → pr.lost = false → pr.state = .connected →
-      ∀ e ∈ w.ents, e.addr = pr.addr → e.box ≠ .queue → (w.req e.rid).alarm ≠ none) : WInv w := by
+      ∀ e ∈ w.ents, e.addr = pr.addr → e.box ≠ .queue → (w.req e.rid).alarm ≠ none)
+    (hsu : ∀ pr, w.protos.get? p = some pr → ∀ e ∈ w.ents, (e.box = .sub ∨ e.box = .unsub) → e.addr = pr.addr →
+      (w.req e.rid).alarm ≠ none) : WInv w := by
   have hc : ∀ q qr, w.protos.get? q = some qr → some q ≠ (none : Option Nat) → qr.lost = false → qr.state = .connected →
       ∀ e ∈ w.ents, e.addr = qr.addr → e.box ≠ .queue → (w.req e.rid).alarm ≠ none := by
     intro q qr hq _ hl hs
     by_cases hqp : q = p
     · subst hqp; exact hp qr hq hl hs
     · exact h.connected q qr hq (by simp [hqp]) hl hs
-  exact { h with connected := hc }
+  have hsub : ∀ e ∈ w.ents, (e.box = .sub ∨ e.box = .unsub) → (w.req e.rid).alarm = none →
+      ∃ p pr, (none : Option Nat) = some p ∧ w.protos.get? p = some pr ∧ pr.addr = e.addr := by
+    intro e he hb ha
+    obtain ⟨q, qr, hx, hq, hqa⟩ := h.subArmed e he hb ha
+    injection hx with hx; subst hx
+    exact absurd ha (hsu qr hq e he hb hqa.symm)
+  exact { h with connected := hc, subArmed := hsub }
 
 end Mqtt
